@@ -148,3 +148,33 @@ for _w in ('O', 'P'):
                   assumptions=['definitions of Up/Dn/Cl (conservative, skolemised)']))
     register(Unit('lemma.galois2.' + _w, None, None, _galois2(_w), assumptions=['instances of lemma.galois.O/P']))
     register(Unit('lemma.meet_closed.' + _w, None, None, _meet_closed(_w), assumptions=['instances of lemma.galois2']))
+
+
+# ---- BITS lemmas about subset via or/and (quantified form, proved once, then usable as axioms with triggers)
+
+def st_bits_subset():
+    from z3 import ForAll, Ints
+    from contracts.ctxtheory import SetPreds
+    x, y = Ints('x y')
+    S = SetPreds()
+    return S, [
+        ('L-SUBSET-OR', ForAll([x, y], Implies(And(x >= 0, y >= 0), (bor(x, y) == x) == S.subset(y, x)), patterns=[bor(x, y)])),
+        ('L-SUBSET-AND', ForAll([x, y], Implies(And(x >= 0, y >= 0), (band(x, y) == y) == S.subset(y, x)), patterns=[band(x, y)])),
+    ]
+
+
+def _bits_subset():
+    S, stmts = st_bits_subset()
+
+    def prove(path):
+        from z3 import Ints
+        x, y = Ints('x0 y0')
+        path.assume(And(x >= 0, y >= 0))
+        ext(path, bor(x, y), x)
+        path.oblige('or', 'lemma', (bor(x, y) == x) == S.subset(y, x))
+        ext(path, band(x, y), y)
+        path.oblige('and', 'lemma', (band(x, y) == y) == S.subset(y, x))
+    return bits.axioms() + S.axioms(), prove
+
+
+register(Unit('lemma.bits_subset', None, None, _bits_subset, assumptions=['BITS axioms, extensionality instance']))
